@@ -359,11 +359,14 @@ def evalsTo (σ : Scope) (e : Expr) (p : Rat → Bool) : Bool :=
   | .error _ => false
 
 mutual
-/-- durations and repetition counts are non-negative, counts and loop ranges are exact integers (the code
-accepts values within 1e-6 of an integer and instantiates negative durations / counts as the empty pulse) -/
+/-- durations, entry times and repetition counts are non-negative, the entry times of a table do not decrease, counts
+and loop ranges are exact integers (the code accepts values within 1e-6 of an integer, instantiates negative
+durations / counts as the empty pulse and does not look at the entries of a table of duration 0) -/
 def regular : PT → Scope → Bool
   | .const _ dur _ _, σ => evalsTo σ dur (fun d => decide (0 ≤ d))
-  | .table _ entries _ _, σ => entries.all (fun (_, es) => es.all (fun x => evalsTo σ x.t (fun t => decide (0 ≤ t))))
+  | .table _ entries _ _, σ => entries.all (fun x => match instEntries σ x.2 with
+      | .ok ws => sortedTimes ws && ws.all (fun w => decide (0 ≤ w.t))
+      | .error _ => false)
   | .point _ _ entries _ _, σ => entries.all (fun x => evalsTo σ x.t (fun t => decide (0 ≤ t)))
   | .func _ _ dur _ _ _, σ => evalsTo σ dur (fun d => decide (0 ≤ d))
   | .seq _ subs _ _, σ => regularAll subs σ
@@ -428,7 +431,7 @@ def pathTags (e : End) : PT → Scope → List (MName × Option MName) → List 
       let orig ← instEntries σ es
       match inst.lookup ch with
       | some ws => pure (tableTags e ws orig)
-      | none => pure []
+      | none => pure [Tag.emptyPart]   -- a table of duration 0 plays nothing
   | .point _ chans entries _ _, σ, _, _, ch => do
       let orig ← instPoint σ (chans.idxOf ch) entries
       let ws := match orig with
@@ -501,11 +504,12 @@ end
 /-! ## The fragment the theorems of `QP.Props.C07` cover -/
 
 mutual
-/-- constant, function (affine in `t`), sequence, repetition, iteration and mapping templates that satisfy what
+/-- constant, table, function (affine in `t`), sequence, repetition, iteration and mapping templates that satisfy what
 the constructors of the real classes enforce: amplitude keys are distinct (a `dict`), all parts of a sequence
 define the same channels, a channel mapping is total on the body's channels and injective on the kept ones -/
 def supported : PT → Bool
   | .const _ _ amps _ => !hasDup (amps.map (·.1))
+  | .table .. => true
   | .func _ _ _ e _ _ => e.affineIn "t"
   | .seq _ subs _ _ => supportedAll subs && sameChannels (PT.firstChannels subs) subs
   | .rep _ body _ _ _ => supported body
